@@ -9,6 +9,8 @@ every run and emitted as lean/DuneVerif/Gen/C14.lean:
                    mapping::operator()(Indices...)  summand and initial value of the fold expression
   mdspan.hh        mdspan::size()                   loop bounds, product step
   mdarray.hh       mdarray::size()                  loop bounds, product step
+  span.hh          first/last/subspan (run-time and template forms): asserted precondition, offset and size of the result;
+                   subspan_extent(O, C)
   mdarray.hh       mdarray(const mapping_type&[, value][, alloc])   the number of elements the container is created with
   mdarray.hh       mdarray(const mdspan&[, const Alloc&])   the number of elements the container is created with
                    (member initialiser of container_: which of `mapping_type(other.mapping()).required_span_size()`,
@@ -512,6 +514,327 @@ def tr_stride_fold(src, name, doc):
     return parts, {}, "\n".join(txt)
 
 
+# ------------------------------------------------------------------------------------------------
+# span.hh: the sub-view functions first / last / subspan (run-time and template forms) and subspan_extent
+# ------------------------------------------------------------------------------------------------
+
+CTOK = re.compile(r"(\d+)|([A-Za-z_][A-Za-z_0-9]*)|(<=|>=|==|!=|&&|\|\||[-+*()<>?:!])")
+
+
+class CExpr:
+    """C++ expression over + - * comparisons && || ! ?: numbers and variables -> typed AST
+       ('num', n) ('var', name) ('bin', op, l, r) ('not', x) ('ite', c, a, b)"""
+
+    def __init__(self, text, names):
+        self.text = text
+        self.names = names
+        self.toks = []
+        pos = 0
+        while pos < len(text):
+            m = CTOK.match(text, pos)
+            if not m:
+                raise TranslateError("cannot tokenise %r at %d" % (text, pos))
+            self.toks.append(m.group(0))
+            pos = m.end()
+        self.i = 0
+
+    def peek(self):
+        return self.toks[self.i] if self.i < len(self.toks) else None
+
+    def eat(self, t=None):
+        x = self.peek()
+        if x is None or (t is not None and x != t):
+            raise TranslateError("expected %r in %r" % (t, self.text))
+        self.i += 1
+        return x
+
+    def parse(self):
+        r = self.cond()
+        if self.peek() is not None:
+            raise TranslateError("trailing tokens in %r" % self.text)
+        return r
+
+    def cond(self):
+        c = self.lor()
+        if self.peek() == "?":
+            self.eat()
+            a = self.cond()
+            self.eat(":")
+            b = self.cond()
+            return ("ite", c, a, b)
+        return c
+
+    def lor(self):
+        l = self.land()
+        while self.peek() == "||":
+            self.eat()
+            l = ("bin", "||", l, self.land())
+        return l
+
+    def land(self):
+        l = self.cmp()
+        while self.peek() == "&&":
+            self.eat()
+            l = ("bin", "&&", l, self.cmp())
+        return l
+
+    def cmp(self):
+        l = self.add()
+        if self.peek() in ("<=", "<", ">=", ">", "==", "!="):
+            op = self.eat()
+            return ("bin", op, l, self.add())
+        return l
+
+    def add(self):
+        l = self.mul()
+        while self.peek() in ("+", "-"):
+            op = self.eat()
+            l = ("bin", op, l, self.mul())
+        return l
+
+    def mul(self):
+        l = self.unary()
+        while self.peek() == "*":
+            self.eat()
+            l = ("bin", "*", l, self.unary())
+        return l
+
+    def unary(self):
+        if self.peek() == "!":
+            self.eat()
+            return ("not", self.unary())
+        t = self.eat()
+        if t == "(":
+            r = self.cond()
+            self.eat(")")
+            return r
+        if t.isdigit():
+            return ("num", int(t))
+        if t == "not":
+            return ("not", self.unary())
+        if t in self.names:
+            return ("var", self.names[t])
+        raise TranslateError("unknown identifier %r in %r" % (t, self.text))
+
+
+BOOLOPS = ("<=", "<", ">=", ">", "==", "!=", "&&", "||")
+
+
+def is_bool(a):
+    return a[0] == "not" or (a[0] == "bin" and a[1] in BOOLOPS) or (a[0] == "ite" and is_bool(a[2]))
+
+
+def clean(a, want_bool):
+    """type check"""
+    k = a[0]
+    if k in ("num", "var"):
+        if want_bool:
+            raise TranslateError("number used as condition")
+        return
+    if k == "not":
+        if not want_bool:
+            raise TranslateError("condition used as number")
+        clean(a[1], True)
+        return
+    if k == "ite":
+        clean(a[1], True)
+        clean(a[2], want_bool)
+        clean(a[3], want_bool)
+        return
+    op = a[1]
+    if op in ("&&", "||"):
+        if not want_bool:
+            raise TranslateError("condition used as number")
+        clean(a[2], True)
+        clean(a[3], True)
+    elif op in BOOLOPS:
+        if not want_bool:
+            raise TranslateError("condition used as number")
+        clean(a[2], False)
+        clean(a[3], False)
+    else:
+        if want_bool:
+            raise TranslateError("number used as condition")
+        clean(a[2], False)
+        clean(a[3], False)
+
+
+LEANCMP = {"<=": "≤", "<": "<", ">=": "≥", ">": ">", "==": "=", "!=": "≠"}
+
+
+def clean_lean(a):
+    k = a[0]
+    if k == "num":
+        return str(a[1])
+    if k == "var":
+        return a[1]
+    if k == "not":
+        return "(!%s)" % clean_lean(a[1])
+    if k == "ite":
+        return "(if %s = true then %s else %s)" % (clean_lean(a[1]), clean_lean(a[2]), clean_lean(a[3]))
+    op = a[1]
+    if op in ("&&", "||"):
+        return "(%s %s %s)" % (clean_lean(a[2]), op, clean_lean(a[3]))
+    if op in LEANCMP:
+        return "(decide (%s %s %s))" % (clean_lean(a[2]), LEANCMP[op], clean_lean(a[3]))
+    return "(%s %s %s)" % (clean_lean(a[2]), op, clean_lean(a[3]))
+
+
+def cev(a, env):
+    """value over the naturals (truncated subtraction like Lean's Nat) / booleans"""
+    k = a[0]
+    if k == "num":
+        return a[1]
+    if k == "var":
+        return env[a[1]]
+    if k == "not":
+        return not cev(a[1], env)
+    if k == "ite":
+        return cev(a[2], env) if cev(a[1], env) else cev(a[3], env)
+    op = a[1]
+    if op == "&&":
+        return cev(a[2], env) and cev(a[3], env)
+    if op == "||":
+        return cev(a[2], env) or cev(a[3], env)
+    x, y = cev(a[2], env), cev(a[3], env)
+    return {"<=": x <= y, "<": x < y, ">=": x >= y, ">": x > y, "==": x == y, "!=": x != y,
+            "+": x + y, "*": x * y, "-": max(x - y, 0)}[op]
+
+
+DYN = 18446744073709551615
+SPAN_PARAMS = "(dyn ext size offset count : Nat)"
+
+
+def span_text(e):
+    e = re.sub(r"\s+", " ", e).strip()
+    e = re.sub(r"\bsize\s*\(\s*\)", "size", e)
+    e = re.sub(r"\bdata\s*\(\s*\)", "data", e)
+    e = re.sub(r"\b(?:Std::|std::|Dune::Std::)?dynamic_extent\b", "dyn", e)
+    return e.replace(" ", "")
+
+
+def top_split(s, sep=","):
+    out, depth, cur = [], 0, ""
+    for c in s:
+        if c in "({[":
+            depth += 1
+        elif c in ")}]":
+            depth -= 1
+        if c == sep and depth == 0:
+            out.append(cur)
+            cur = ""
+        else:
+            cur += c
+    out.append(cur)
+    return out
+
+
+SPAN_FUNCS = {
+    # name: (regex of the function head up to the opening brace; groups = parameter names: [offset,] count)
+    "span_tfirst": r"template\s*<\s*std::size_t\s+(\w+)\s*>\s*constexpr\s+span\s*<[^;{}]*>\s*first\s*\(\s*\)\s*const\s*(?:noexcept)?\s*\{",
+    "span_tlast": r"template\s*<\s*std::size_t\s+(\w+)\s*>\s*constexpr\s+span\s*<[^;{}]*>\s*last\s*\(\s*\)\s*const\s*(?:noexcept)?\s*\{",
+    "span_tsub": r"template\s*<\s*std::size_t\s+(\w+)\s*,\s*std::size_t\s+(\w+)\s*=\s*(?:Std::)?dynamic_extent\s*>\s*constexpr\s+span\s*<[^;{}]*>\s*subspan\s*\(\s*\)\s*const\s*(?:noexcept)?\s*\{",
+    "span_first": r"constexpr\s+span\s*<[^;{}]*>\s*first\s*\(\s*size_type\s+(\w+)\s*\)\s*const\s*(?:noexcept)?\s*\{",
+    "span_last": r"constexpr\s+span\s*<[^;{}]*>\s*last\s*\(\s*size_type\s+(\w+)\s*\)\s*const\s*(?:noexcept)?\s*\{",
+    "span_sub": r"constexpr\s+span\s*<[^;{}]*>\s*subspan\s*\(\s*size_type\s+(\w+)\s*,\s*size_type\s+(\w+)\s*=\s*(?:Std::)?dynamic_extent\s*\)\s*const\s*(?:noexcept)?\s*\{",
+}
+
+
+def tr_span(src, name, doc):
+    m, body = body_after(src, SPAN_FUNCS[name])
+    names = {"size": "size", "dyn": "dyn", "data": "data", "Extent": "ext"}
+    if m.lastindex == 2:
+        names[m.group(1)] = "offset"
+        names[m.group(2)] = "count"
+    else:
+        names[m.group(1)] = "count"
+    pre = None
+    ret = None
+    for st in [x.strip() for x in top_split(body, ";") if x.strip()]:
+        if st.startswith("static_assert"):
+            continue
+        ma = re.fullmatch(r"assert\s*\((.*)\)", st, flags=re.S)
+        if ma:
+            if pre is not None or ret is not None:
+                raise TranslateError("%s: more than one assertion / assertion after return" % doc)
+            pre = ma.group(1)
+            continue
+        mr = re.fullmatch(r"return\s*(?:span\s*<.*>\s*)?\{(.*)\}", st, flags=re.S)
+        if mr and ret is None:
+            ret = mr.group(1)
+            continue
+        raise TranslateError("%s: statement outside the grammar: %r" % (doc, st[:80]))
+    if pre is None or ret is None:
+        raise TranslateError("%s: assertion or return missing" % doc)
+    args = top_split(ret)
+    if len(args) != 2:
+        raise TranslateError("%s: the returned span is not built from (pointer, size)" % doc)
+    p_pre = CExpr(span_text(pre), names).parse()
+    p_ptr = CExpr(span_text(args[0]), names).parse()
+    p_size = CExpr(span_text(args[1]), names).parse()
+
+    def has_data(a):
+        return a == ("var", "data") or any(has_data(x) for x in a[1:] if isinstance(x, tuple))
+    if p_ptr == ("var", "data"):
+        p_off = ("num", 0)
+    elif p_ptr[0] == "bin" and p_ptr[1] == "+" and p_ptr[2] == ("var", "data") and not has_data(p_ptr[3]):
+        p_off = p_ptr[3]
+    elif p_ptr[0] == "bin" and p_ptr[1] == "+" and p_ptr[3] == ("var", "data") and not has_data(p_ptr[2]):
+        p_off = p_ptr[2]
+    else:
+        raise TranslateError("%s: pointer of the returned span is not data() + offset" % doc)
+    if has_data(p_pre) or has_data(p_size):
+        raise TranslateError("%s: data() outside the pointer argument" % doc)
+    clean(p_pre, True)
+    clean(p_off, False)
+    clean(p_size, False)
+    parts = dict(pre=p_pre, off=p_off, size=p_size)
+    txt = ["/-- %s: the asserted precondition, and offset (relative to `data()`) and size of the returned span;" % doc,
+           "    `dyn` = `Std::dynamic_extent`, `ext` = the static `Extent` of the span (`dyn` or equal to `size`), `size` = `size()` -/",
+           "def %s_pre %s : Bool := %s" % (name, SPAN_PARAMS, clean_lean(p_pre)),
+           "def %s_off %s : Nat := %s" % (name, SPAN_PARAMS, clean_lean(p_off)),
+           "def %s_size %s : Nat := %s" % (name, SPAN_PARAMS, clean_lean(p_size))]
+    return parts, {}, "\n".join(txt)
+
+
+def tr_subspan_extent(src, name, doc):
+    m, body = body_after(src, r"subspan_extent\s*\(\s*std::size_t\s+(\w+)\s*,\s*std::size_t\s+(\w+)\s*\)\s*(?:noexcept)?\s*\{")
+    names = {"dyn": "dyn", "Extent": "ext", m.group(1): "offset", m.group(2): "count"}
+    mr = re.fullmatch(r"\s*return\s+(.*);\s*", body, flags=re.S)
+    if not mr:
+        raise TranslateError("%s: not a single return statement" % doc)
+    a = CExpr(span_text(mr.group(1)), names).parse()
+    clean(a, False)
+    txt = ["/-- %s: static extent of `subspan<Offset,Count>()` of a span with static extent `ext` (`dyn` = dynamic) -/" % doc,
+           "def %s (dyn ext offset count : Nat) : Nat := %s" % (name, clean_lean(a))]
+    return dict(val=a), {}, "\n".join(txt)
+
+
+def same_span(name, pn, pr):
+    vals = list(range(0, 8)) + [DYN]
+    if name == "span_subspan_extent":
+        for ext in vals:
+            for o in range(0, 6):
+                for c in vals:
+                    e = {"dyn": DYN, "ext": ext, "offset": o, "count": c}
+                    if ext != DYN and o > ext:
+                        continue  # static_assert(Offset <= Extent)
+                    if cev(pn["val"], e) != cev(pr["val"], e):
+                        return False
+        return True
+    for size in range(0, 8):
+        for ext in (size, DYN):  # a static extent equals size()
+            for o in range(0, 9):
+                for c in vals:
+                    e = {"dyn": DYN, "ext": ext, "size": size, "offset": o, "count": c}
+                    a, b = cev(pn["pre"], e), cev(pr["pre"], e)
+                    if a != b:
+                        return False
+                    if a and (cev(pn["off"], e) != cev(pr["off"], e) or cev(pn["size"], e) != cev(pr["size"], e)):
+                        return False
+    return True
+
+
 FUNCS = [
     ("left", "dune/common/std/layout_left.hh", tr_offset, "layout_left::mapping::operator()(Indices...)"),
     ("left_stride", "dune/common/std/layout_left.hh", tr_stride, "layout_left::mapping::stride(i)"),
@@ -524,6 +847,13 @@ FUNCS = [
     ("mdarray_size", "dune/common/std/mdarray.hh", tr_mdsize, "mdarray::size()"),
     ("mdarray_from_mapping", "dune/common/std/mdarray.hh", tr_from_mapping, "mdarray(const mapping_type& m[, const value_type& v][, const Alloc& a])"),
     ("mdarray_from_mdspan", "dune/common/std/mdarray.hh", tr_from_mdspan, "mdarray(const mdspan& other[, const Alloc& a])"),
+    ("span_first", "dune/common/std/span.hh", tr_span, "span::first(count)"),
+    ("span_last", "dune/common/std/span.hh", tr_span, "span::last(count)"),
+    ("span_sub", "dune/common/std/span.hh", tr_span, "span::subspan(offset, count)"),
+    ("span_tfirst", "dune/common/std/span.hh", tr_span, "span::first<Count>()"),
+    ("span_tlast", "dune/common/std/span.hh", tr_span, "span::last<Count>()"),
+    ("span_tsub", "dune/common/std/span.hh", tr_span, "span::subspan<Offset,Count>()"),
+    ("span_subspan_extent", "dune/common/std/span.hh", tr_subspan_extent, "span::subspan_extent(O, C)"),
 ]
 
 # The reference: the functions as they read when the theorems were written.
@@ -623,6 +953,57 @@ REFERENCE["mdarray_from_mdspan"] = """
     init_from_mdspan(other);
   }"""
 
+REFERENCE["span_tfirst"] = """
+  template <std::size_t Count>
+  constexpr span<element_type, Count> first () const
+  {
+    static_assert(Count <= Extent);
+    assert(Count <= size());
+    return span<element_type, Count>{data(), Count};
+  }"""
+REFERENCE["span_tlast"] = """
+  template <std::size_t Count>
+  constexpr span<element_type, Count> last () const
+  {
+    static_assert(Count <= Extent);
+    assert(Count <= size());
+    return span<element_type, Count>{data()+ (size() - Count), Count};
+  }"""
+REFERENCE["span_subspan_extent"] = """
+  static constexpr std::size_t subspan_extent (std::size_t O, std::size_t C) noexcept
+  {
+    return (C != Std::dynamic_extent) ? C :
+      (Extent != Std::dynamic_extent) ? Extent - O : Std::dynamic_extent;
+  }"""
+REFERENCE["span_tsub"] = """
+  template <std::size_t Offset, std::size_t Count = Std::dynamic_extent>
+  constexpr span<element_type, subspan_extent(Offset,Count)> subspan () const
+  {
+    static_assert(Offset <= Extent && (Count == Std::dynamic_extent || Count <= Extent - Offset));
+    assert(Offset <= size() && (Count == Std::dynamic_extent || Count <= size() - Offset));
+    return span<element_type, subspan_extent(Offset,Count)>{
+      data() + Offset, Count != Std::dynamic_extent ? Count : size() - Offset};
+  }"""
+REFERENCE["span_first"] = """
+  constexpr span<element_type, Std::dynamic_extent> first (size_type count) const
+  {
+    assert(count <= size());
+    return span<element_type, Std::dynamic_extent>{data(), count};
+  }"""
+REFERENCE["span_last"] = """
+  constexpr span<element_type, Std::dynamic_extent> last (size_type count) const
+  {
+    assert(count <= size());
+    return span<element_type, Std::dynamic_extent>{data()+ (size() - count), count};
+  }"""
+REFERENCE["span_sub"] = """
+  constexpr span<element_type, Std::dynamic_extent> subspan (size_type offset, size_type count = Std::dynamic_extent) const
+  {
+    assert(offset <= size() && (count == Std::dynamic_extent || count <= size() - offset));
+    return span<element_type, Std::dynamic_extent>{
+      data() + offset, count == Std::dynamic_extent ? size() - offset : count};
+  }"""
+
 REFERENCE["stride_fold"] = """
   constexpr index_type operator() (Indices... ii) const noexcept
   {
@@ -650,7 +1031,7 @@ REFERENCE["mdarray_from_mapping"] = """
   {}"""
 
 GEN = "DuneVerif/Gen/C14.lean"
-HEADER = ("-- GENERATED by tools/translators/tr_c14.py from dune/common/std/{layout_left,layout_right,layout_stride,extents,mdspan,mdarray}.hh"
+HEADER = ("-- GENERATED by tools/translators/tr_c14.py from dune/common/std/{layout_left,layout_right,layout_stride,extents,mdspan,mdarray,span}.hh"
           " -- do not edit\n")
 
 
@@ -661,6 +1042,8 @@ def same_function(name, new, ref, samples=3000):
     pr, cr, _ = ref
     if cn != cr:
         return False
+    if name.startswith("span_"):
+        return same_span(name, pn, pr)
     if name == "stride_fold":
         for i in range(12):
             for st in range(12):
